@@ -103,6 +103,8 @@ structure SInv (U : Nat → Blk) (m : Mgr) : Prop where
   valid : ∀ i, i ≠ 0 → m.recs i = some ⟨true, true⟩ → (U i).bodyOk = true
   /-- a stored state means the block passed `ValidateOrphan` -/
   validHdr : ∀ i, i ≠ 0 → m.states i = true → (U i).hdrOk = true ∧ (U i).future = false
+  /-- a block is applied (gets its supplement) only on top of an applied parent -/
+  suppclosed : ∀ i, i ≠ 0 → m.recs i = some ⟨true, true⟩ → m.recs (par U i) = some ⟨true, true⟩
 
 theorem SInv.ne_zero_of_height {U m} (h : SInv U m) {i : Nat} (hh : 0 < (U i).height) : i ≠ 0 := by
   intro h0; subst h0; have := h.h0; omega
@@ -303,7 +305,7 @@ theorem revertTip_spec {U m} (h : Inv U m) {t b : Nat} {rest : List Nat} (hb : m
   · simp only [revertTip, hb, Mgr.block, ht]
     have : (U t).parent = b := hp
     simp [this, hbs]
-  · exact ⟨⟨h.s.h0, h.s.gen, h.s.closed, h.s.recstate, h.s.staterec, h.s.valid, h.s.validHdr⟩, hc',
+  · exact ⟨⟨h.s.h0, h.s.gen, h.s.closed, h.s.recstate, h.s.staterec, h.s.valid, h.s.validHdr, h.s.suppclosed⟩, hc',
       fun i hi => h.bestsupp i (by rw [hb]; exact List.mem_cons_of_mem _ hi)⟩
 
 theorem revertN_spec {U} : ∀ (n : Nat) (m : Mgr), Inv U m → n < m.best.length →
@@ -351,7 +353,7 @@ theorem applyTip_spec {U m} (h : Inv U m) {i : Nat} (hp : par U i = m.tip) (hne 
     have hr' : m.recs i = some ⟨true, true⟩ := by
       rw [hr]; cases r with
       | mk bd sp => simp only at hbody hsupp; rw [hbody, hsupp]
-    refine ⟨{ m with best := i :: m.best }, ?_, ⟨⟨h.s.h0, h.s.gen, h.s.closed, h.s.recstate, h.s.staterec, h.s.valid, h.s.validHdr⟩, hchain, ?_⟩, ⟨fun _ x => x, fun _ x => x, rfl⟩, rfl⟩
+    refine ⟨{ m with best := i :: m.best }, ?_, ⟨⟨h.s.h0, h.s.gen, h.s.closed, h.s.recstate, h.s.staterec, h.s.valid, h.s.validHdr, h.s.suppclosed⟩, hchain, ?_⟩, ⟨fun _ x => x, fun _ x => x, rfl⟩, rfl⟩
     · simp [applyTip, Mgr.block, hr, hbody, hsupp, hpar]
     · intro j hj
       rcases List.mem_cons.mp hj with rfl | hj
@@ -369,7 +371,7 @@ theorem applyTip_spec {U m} (h : Inv U m) {i : Nat} (hp : par U i = m.tip) (hne 
       · simp [applyTip, Mgr.block, hr, hbody, hsupp, hpar, hok]
       · -- SInv of the updated store
         have hvalid := h.s.valid
-        refine ⟨h.s.h0, ?_, ?_, ?_, ?_, ?_, ?_⟩
+        refine ⟨h.s.h0, ?_, ?_, ?_, ?_, ?_, ?_, ?_⟩
         · have := h.s.gen; simp [upd, hne.symm, this]
         · intro j hj hj0
           have hj' : m.states j = true := by
@@ -397,6 +399,15 @@ theorem applyTip_spec {U m} (h : Inv U m) {i : Nat} (hp : par U i = m.tip) (hne 
             · subst e; exact hs
             · simpa [upd, e] using hj
           exact h.s.validHdr j hj0 hj'
+        · intro j hj0 hj
+          have htipsupp : m.recs m.tip = some ⟨true, true⟩ := h.bestsupp _ h.tip_mem
+          by_cases e : j = i
+          · subst e
+            rw [hp]
+            by_cases e2 : m.tip = j <;> simp [upd, e2, htipsupp]
+          · have hj' : m.recs j = some ⟨true, true⟩ := by simpa [upd, e] using hj
+            have := h.s.suppclosed j hj0 hj'
+            by_cases e2 : par U j = i <;> simp [upd, e2, this]
       · intro j hj
         rcases List.mem_cons.mp hj with rfl | hj
         · simp [upd]
@@ -498,7 +509,8 @@ theorem reorgTo_spec {U m} (h : Inv U m) {t : Nat} (ht : m.states t = true) :
 /-- the shared tail of `AddBlocks` / `AddValidatedV2Blocks` -/
 theorem maybeReorg_spec {U m} (h : Inv U m) {cs : Nat} (hcs : m.states cs = true) :
     Inv U (maybeReorg U m cs).1 ∧
-    (∀ i, m.states i = true → (maybeReorg U m cs).1.states i = true) ∧
+    ((∀ i, m.states i = true → (maybeReorg U m cs).1.states i = true) ∧
+     (∀ i, m.recs i = some ⟨true, true⟩ → (maybeReorg U m cs).1.recs i = some ⟨true, true⟩)) ∧
     (((maybeReorg U m cs).2 = none ∧
         ((heavier U cs m.tip = true ∧ (maybeReorg U m cs).1.tip = cs ∧
             (maybeReorg U m cs).1.notified = m.notified + 1) ∨
@@ -517,7 +529,7 @@ theorem maybeReorg_spec {U m} (h : Inv U m) {cs : Nat} (hcs : m.states cs = true
     cases e1 with
     | none =>
       simp only
-      refine ⟨⟨⟨i1.s.h0, i1.s.gen, i1.s.closed, i1.s.recstate, i1.s.staterec, i1.s.valid, i1.s.validHdr⟩, i1.chain, i1.bestsupp⟩, mono1.states, Or.inl ⟨by trivial, Or.inl ⟨by trivial, ?_, ?_⟩⟩⟩
+      refine ⟨⟨⟨i1.s.h0, i1.s.gen, i1.s.closed, i1.s.recstate, i1.s.staterec, i1.s.valid, i1.s.validHdr, i1.s.suppclosed⟩, i1.chain, i1.bestsupp⟩, ⟨mono1.states, mono1.supp⟩, Or.inl ⟨by trivial, Or.inl ⟨by trivial, ?_, ?_⟩⟩⟩
       · simpa [Mgr.tip] using r1 rfl
       · simp [mono1.notified]
     | some e =>
@@ -552,7 +564,7 @@ theorem maybeReorg_spec {U m} (h : Inv U m) {cs : Nat} (hcs : m.states cs = true
           | cons a0 t0 =>
             simp [Mgr.tip, hb2, hb0] at htip
             simp [htip]
-      exact ⟨i2, fun i hi => mono2.states i (mono1.states i hi), Or.inr ⟨by trivial, by trivial, hbest, by rw [mono2.notified, mono1.notified]⟩⟩
+      exact ⟨i2, ⟨fun i hi => mono2.states i (mono1.states i hi), fun i hi => mono2.supp i (mono1.supp i hi)⟩, Or.inr ⟨by trivial, by trivial, hbest, by rw [mono2.notified, mono1.notified]⟩⟩
 
 /-- what the harness guarantees about declared blocks: a header-valid block is not genesis and
 sits one above its parent -/
@@ -561,7 +573,7 @@ structure WFU (U : Nat → Blk) : Prop where
   hdr : ∀ b, (U b).hdrOk = true → b ≠ 0 ∧ (U b).height = (U (par U b)).height + 1
 
 theorem inv_init {U} (hU : WFU U) : Inv U Mgr.init := by
-  refine ⟨⟨hU.h0, by simp [Mgr.init], ?_, ?_, ?_, ?_, ?_⟩, Chain.gen, ?_⟩
+  refine ⟨⟨hU.h0, by simp [Mgr.init], ?_, ?_, ?_, ?_, ?_, ?_⟩, Chain.gen, ?_⟩
   · intro i hi hne; simp [Mgr.init, hne] at hi
   · intro i r hr
     by_cases e : i = 0
@@ -570,6 +582,7 @@ theorem inv_init {U} (hU : WFU U) : Inv U Mgr.init := by
   · intro i hi; simp [Mgr.init] at hi ⊢; simp [hi]
   · intro i hne hr; simp [Mgr.init, hne] at hr
   · intro i hne hs; simp [Mgr.init, hne] at hs
+  · intro i hne hr; simp [Mgr.init, hne] at hr
   · intro i hi; simp [Mgr.init] at hi ⊢; simp [hi]
 
 /-- storing a header-valid block whose parent has a state keeps the invariant -/
@@ -580,7 +593,7 @@ theorem store_header_inv {U m} (hU : WFU U) (h : Inv U m) {b : Nat}
   obtain ⟨hb0, hbh⟩ := hU.hdr b hok
   have hnb : ∀ i, m.recs i = some ⟨true, true⟩ → i ≠ b := by
     intro i hi e; subst e; exact hnot (by simp [Mgr.block, hi])
-  refine ⟨⟨h.s.h0, ?_, ?_, ?_, ?_, ?_, ?_⟩, h.chain, ?_⟩
+  refine ⟨⟨h.s.h0, ?_, ?_, ?_, ?_, ?_, ?_, ?_⟩, h.chain, ?_⟩
   · have := h.s.gen; simp [upd, hb0.symm, this]
   · intro j hj hj0
     by_cases e : j = b
@@ -607,6 +620,12 @@ theorem store_header_inv {U m} (hU : WFU U) (h : Inv U m) {b : Nat}
     by_cases e : j = b
     · subst e; exact ⟨hok, hfut⟩
     · simp [upd, e] at hj; exact h.s.validHdr j hj0 hj
+  · intro j hj0 hj
+    by_cases e : j = b
+    · subst e; simp [upd] at hj
+    · have hj' : m.recs j = some ⟨true, true⟩ := by simpa [upd, e] using hj
+      have := h.s.suppclosed j hj0 hj'
+      simp [upd, hnb _ this, this]
   · intro i hi
     have := h.bestsupp i hi
     simp [upd, hnb i this, this]
@@ -616,7 +635,8 @@ theorem addLoop_spec {U} (hU : WFU U) : ∀ (batch : List Nat) (m : Mgr) (cs : N
     Inv U (addBlocks.go U batch m cs).1 ∧
     (addBlocks.go U batch m cs).1.best = m.best ∧
     (addBlocks.go U batch m cs).1.notified = m.notified ∧
-    (∀ i, m.states i = true → (addBlocks.go U batch m cs).1.states i = true) ∧
+    ((∀ i, m.states i = true → (addBlocks.go U batch m cs).1.states i = true) ∧
+     (∀ i, m.recs i = some ⟨true, true⟩ → (addBlocks.go U batch m cs).1.recs i = some ⟨true, true⟩)) ∧
     (addBlocks.go U batch m cs).1.states (addBlocks.go U batch m cs).2.2 = true ∧
     ((addBlocks.go U batch m cs).2.1 = none ∨ (addBlocks.go U batch m cs).2.1 = some .missingParent ∨
      (addBlocks.go U batch m cs).2.1 = some .future ∨ (addBlocks.go U batch m cs).2.1 = some .invalidHeader) := by
@@ -661,10 +681,15 @@ theorem addLoop_spec {U} (hU : WFU U) : ∀ (batch : List Nat) (m : Mgr) (cs : N
               simp only [Bool.false_eq_true, if_false, Bool.not_true]
               have hinv' := store_header_inv hU h h1 hpar hk hf
               obtain ⟨j1, j2, j3, j4, j5, j6⟩ := ih _ b hinv' (by simp [upd])
-              refine ⟨j1, j2, j3, ?_, j5, j6⟩
-              intro i hi
-              apply j4
-              by_cases e : i = b <;> simp [upd, e, hi]
+              refine ⟨j1, j2, j3, ⟨?_, ?_⟩, j5, j6⟩
+              · intro i hi
+                apply j4.1
+                by_cases e : i = b <;> simp [upd, e, hi]
+              · intro i hi
+                apply j4.2
+                have hib : i ≠ b := by
+                  intro e; subst e; exact h1 (by simp [Mgr.block, hi])
+                simp [upd, hib, hi]
 
 /-- **`AddBlocks`**: the invariant is preserved for any batch; it never panics and a failed
 reorg is always rolled back; on any error the best chain and the notification count are as
@@ -672,7 +697,8 @@ before; the tip moves exactly when the submitted chain is sufficiently heavier, 
 notification is delivered. -/
 theorem addBlocks_spec {U} (hU : WFU U) {m : Mgr} (h : Inv U m) (batch : List Nat) :
     Inv U (addBlocks U m batch).1 ∧
-    (∀ i, m.states i = true → (addBlocks U m batch).1.states i = true) ∧
+    ((∀ i, m.states i = true → (addBlocks U m batch).1.states i = true) ∧
+     (∀ i, m.recs i = some ⟨true, true⟩ → (addBlocks U m batch).1.recs i = some ⟨true, true⟩)) ∧
     (((addBlocks U m batch).2 = none ∧
         (((addBlocks U m batch).1.best = m.best ∧ (addBlocks U m batch).1.notified = m.notified) ∨
          (heavier U (addBlocks U m batch).1.tip m.tip = true ∧
@@ -701,7 +727,7 @@ theorem addBlocks_spec {U} (hU : WFU U) {m : Mgr} (h : Inv U m) (batch : List Na
       simp only
       obtain ⟨k1, k2, k3⟩ := maybeReorg_spec j1 j5
       have htip : m1.tip = m.tip := by simp [Mgr.tip, j2]
-      refine ⟨k1, fun i hi => k2 i (j4 i hi), ?_⟩
+      refine ⟨k1, ⟨fun i hi => k2.1 i (j4.1 i hi), fun i hi => k2.2 i (j4.2 i hi)⟩, ?_⟩
       rcases k3 with ⟨ke, (⟨kh, kt, kn⟩ | ⟨kh, km⟩)⟩ | ⟨ke, kh, kb, kn⟩
       · left
         refine ⟨ke, Or.inr ⟨?_, by rw [kn, j3]⟩⟩
@@ -711,5 +737,113 @@ theorem addBlocks_spec {U} (hU : WFU U) {m : Mgr} (h : Inv U m) (batch : List Na
         rw [km]; exact ⟨j2, j3⟩
       · right
         exact ⟨Or.inr (Or.inr (Or.inr ke)), by rw [kb, j2], by rw [kn, j3]⟩
+
+/-! ### pruning -/
+
+theorem bestAt_recs (m : Mgr) (r : Nat → Option Rec) (k : Nat) :
+    ({ m with recs := r } : Mgr).bestAt k = m.bestAt k := rfl
+
+/-- the pruning loop touches nothing but records of best-chain blocks below `h`, which it
+replaces by header-only records -/
+theorem prune_go_spec : ∀ (h : Nat) (m : Mgr),
+    (prune.go h m).best = m.best ∧ (prune.go h m).states = m.states ∧
+    (prune.go h m).notified = m.notified ∧
+    ∀ i, (prune.go h m).recs i = m.recs i ∨
+      ((prune.go h m).recs i = some ⟨false, false⟩ ∧ (m.recs i).isSome = true ∧
+        ∃ k, k < h ∧ m.bestAt k = some i) := by
+  intro h
+  induction h with
+  | zero => intro m; simp [prune.go]
+  | succ h ih =>
+    intro m
+    unfold prune.go
+    cases hb : m.bestAt h with
+    | none => simp
+    | some i =>
+      simp only
+      cases hblk : m.block i with
+      | none => simp
+      | some sp =>
+        simp only
+        obtain ⟨i1, i2, i3, i4⟩ := ih { m with recs := upd m.recs i (some ⟨false, false⟩) }
+        refine ⟨i1, i2, i3, ?_⟩
+        have hrec : (m.recs i).isSome = true := by
+          simp only [Mgr.block] at hblk
+          cases hr : m.recs i with
+          | none => simp [hr] at hblk
+          | some r => rfl
+        intro j
+        rcases i4 j with e | ⟨e1, e2, k, hk, e3⟩
+        · by_cases hj : j = i
+          · subst hj
+            right
+            exact ⟨by rw [e]; simp [upd], hrec, h, by omega, hb⟩
+          · left; rw [e]; simp [upd, hj]
+        · right
+          refine ⟨e1, ?_, k, by omega, e3⟩
+          by_cases hj : j = i
+          · subst hj; exact hrec
+          · simpa [upd, hj] using e2
+
+theorem bestAt_mem {m : Mgr} {k i : Nat} (h : m.bestAt k = some i) : i ∈ m.best := by
+  unfold Mgr.bestAt at h
+  split at h
+  · exact List.mem_of_getElem? h
+  · simp at h
+
+theorem bestAt_inj {m : Mgr} (hn : m.best.Nodup) {k k' i : Nat}
+    (h : m.bestAt k = some i) (h' : m.bestAt k' = some i) : k = k' := by
+  unfold Mgr.bestAt at h h'
+  split at h <;> split at h' <;> try (simp at h h')
+  next hk hk' =>
+    have := (List.getElem?_inj (i := m.best.length - 1 - k) (j := m.best.length - 1 - k') (by omega) hn).mp (h.trans h'.symm)
+    omega
+
+/-- on a chain whose blocks below `h` all have bodies the loop prunes every one of them -/
+theorem prune_go_all : ∀ (h : Nat) (m : Mgr), m.best.Nodup → h ≤ m.best.length →
+    (∀ k, k < h → ∀ i, m.bestAt k = some i → (m.block i).isSome = true) →
+    ∀ k, k < h → ∀ i, m.bestAt k = some i → (prune.go h m).recs i = some ⟨false, false⟩ := by
+  intro h
+  induction h with
+  | zero => intro m _ _ _ k hk; omega
+  | succ h ih =>
+    intro m hn hlen hall k hk i hi
+    have hex : ∃ i0, m.bestAt h = some i0 := by
+      unfold Mgr.bestAt
+      rw [if_pos (by omega)]
+      exact ⟨_, List.getElem?_eq_getElem (by omega)⟩
+    obtain ⟨i0, hi0⟩ := hex
+    obtain ⟨sp, hsp⟩ := Option.isSome_iff_exists.mp (hall h (by omega) i0 hi0)
+    have hgo : prune.go (h + 1) m = prune.go h { m with recs := upd m.recs i0 (some ⟨false, false⟩) } := by
+      rw [prune.go]; simp [hi0, hsp]
+    rw [hgo]
+    by_cases hkh : k = h
+    · subst hkh
+      have : i = i0 := by rw [hi] at hi0; exact Option.some.inj hi0
+      subst this
+      rcases (prune_go_spec k { m with recs := upd m.recs i (some ⟨false, false⟩) }).2.2.2 i with e | ⟨e, _⟩
+      · rw [e]; simp [upd]
+      · exact e
+    · apply ih { m with recs := upd m.recs i0 (some ⟨false, false⟩) } hn (by simpa using Nat.le_of_succ_le hlen) ?_ k (by omega) i hi
+      intro k' hk' j hj
+      have hj' : m.bestAt k' = some j := hj
+      have hne : j ≠ i0 := by
+        intro e; subst e
+        have := bestAt_inj hn hj' hi0
+        omega
+      have := hall k' (by omega) j hj'
+      simpa [Mgr.block, upd, hne] using this
+
+/-- the ids of a best chain are pairwise distinct (heights strictly decrease from the tip) -/
+theorem Inv.nodup {U m} (h : Inv U m) : m.best.Nodup := by
+  rw [List.nodup_iff_pairwise_ne, List.pairwise_iff_getElem]
+  intro i j hi hj hij e
+  have hlen := h.length
+  have h1 := (h.s.anc_state h.tip_state i (by omega)).2
+  have h2 := (h.s.anc_state h.tip_state j (by omega)).2
+  rw [← h.best_getElem i hi] at h1
+  rw [← h.best_getElem j hj] at h2
+  rw [e] at h1
+  omega
 
 end Verif.Chain
